@@ -138,6 +138,7 @@ def oracle(ctx):
         for us in uss:
             t = o.tle.epoch + np.timedelta64(us, "us")
             rp_t, ra_t = rp, ra
+            ratio = None
             if us in secular and all(math.isfinite(x) for x in secular[us]):
                 ratio, e_t = secular[us]
                 rp_t = min(rp, a_km * ratio * (1 - max(e_t, 0.0)))
@@ -200,7 +201,9 @@ def oracle(ctx):
             ref = -MU / (2 * a_km)
             de = abs(energy - ref) / abs(ref)
             worst["energy"] = max(worst["energy"], de)
-            if de > 0.01:
+            # "-mu/2a": the summary's a or the published model's own a(t) (DESIGN section 7, as for the distance band)
+            de_t = abs(energy + MU / (2 * a_km * ratio)) / abs(MU / (2 * a_km * ratio)) if ratio is not None and ratio > 0 else float("inf")
+            if de > 0.01 and de_t > 0.01:
                 ctx.violation("energy", case, energy, "%.6f within 1 %%" % ref, site="Orbital.get_position")
     ctx.note("worst: |v - dp/dt|/|v| = %.3g, |incl - i0| = %.3g deg, energy rel = %.3g" % (worst["dv"], worst["incl"], worst["energy"]))
     # orbit summary vs the sampled trajectory (drag-free, inclination 3-177 deg)
